@@ -115,4 +115,16 @@ def history (copyQ storeNew : Bool) (chain : List Plug) : List (Nat × Bytes × 
     let r := run copyQ storeNew chain { qid := id, qname := name, cd := cd, resp := none } w
     replyOf r.1 :: history copyQ storeNew chain qs r.2
 
+/-- The background refresh of a lazy cache `i` that had a stale hit for the question of `c` (`doLazyUpdate`): the plugins
+BEHIND the cache (`rest`) run on a copy of the context - `Context.Copy` copies the response too, so a response the
+context carried when it reached the cache (the hit of a cache in front of a redirect) is in the copy, as a new object -
+and the response the copy holds afterwards is stored under the key. `storeNewLazy` is the regenerated fact
+`c03LazyUpdateStoresOnlyNewResponse` (`rBefore := qCtx.R()` immediately before `next.ExecNext` in the refresh, the only
+`saveRespToCache` under `r != nil && rBefore != r`); `false` is the code before F17 (`r != nil`). The caches' contents
+after the refresh. -/
+def lazyRefresh (storeNewLazy : Bool) (i : Nat) (rest : List Plug) (c : Ctx) (w : World) : World :=
+  let cc : Ctx := { c with resp := c.resp.map (fun r => { r with obj := w.fresh, qcell := w.fresh + 1 }) }
+  (finishCache true i (c.qname, c.cd) (if storeNewLazy then cc.resp.map (·.obj) else none)
+    (run true true rest cc { w with fresh := w.fresh + 2 })).2
+
 end Model.C03Store
